@@ -8,14 +8,20 @@ import tempfile
 
 HERE = os.path.dirname(os.path.abspath(__file__))
 sys.path.insert(0, os.path.join(HERE, "..", "lib"))
-LEAN_MODULES = ["KmipModel.Props.C09"]
+LEAN_MODULES = ["KmipModel.Props.C09", "KmipModel.Props.C09Request"]
 RULE = ("fault enumeration: for each state-changing operation (Create, CreateKeyPair, Register of several types, "
         "DeriveKey, Activate, Revoke, Destroy, Set/Modify/DeleteAttribute in both request forms) on a prepared database, "
         "a child process runs the real engine and is killed with os._exit immediately before every SQL write statement, "
         "immediately before and after the DBAPI COMMIT, and after the response was produced; the parent reopens the "
         "surviving file with a fresh engine, dumps every object and compares with the before / after stores; the "
         "recorded statement/commit/response trace of each complete run must have the shape the theorem assumes "
-        "(all writes, one COMMIT, response); non-trivial = a kill point that falls inside the operation")
+        "(all writes, one COMMIT, response); non-trivial = a kill point that falls inside the operation.  Whole requests: "
+        "multi-item batches (Continue and Stop, with succeeding, failing, read-only and placeholder-linked items) are "
+        "killed at statement boundaries, around every COMMIT and after the response; the surviving store must be the "
+        "store after a prefix of the items (computed by complete runs of the prefix requests on the implementation), "
+        "the final one once the response was produced; it is compared with the durable store the Lean model "
+        "(requestRun / recoverReq, Drivers/Txn.lean) predicts after the same number of COMMITs, and the items that "
+        "COMMIT are compared with the model's commit events")
 ASSUMPTIONS = ["SQLite rollback-journal atomic commit and durability (process death, not power loss)"]
 CHILD = os.path.join(HERE, "..", "lib", "crash_child.py")
 
@@ -78,26 +84,201 @@ def operations():
     return ops
 
 
+def base_lines():
+    """the history that prepares the store (the same lines are given to the Lean model)"""
+    ok16 = {"k": "ok", "t": "cd" * 16}
+    rich = base_attrs() + [A("Name", "name", "n0", 0, t=1), A("Name", "name", "n1", 1, t=1), A("Name", "name", "n2", 2, t=1),
+                           A("Object Group", "text", "g1", 0), A("Object Group", "text", "g2", 1),
+                           {"name": "Application Specific Information", "index": 0,
+                            "value": {"k": "appinfo", "ns": "ssl", "d": "www"}}]
+    ls = [req(14, {"op": "create", "bid": None, "crypto": ok16, "otype": 2, "tmpl": T(tm)}, now=1000)
+          for tm in (rich, base_attrs(), base_attrs())]
+    ls.append(req(14, {"op": "activate", "bid": None, "crypto": None, "uid": "1"}, now=1000))
+    ls.append(req(14, {"op": "revoke", "bid": None, "crypto": None, "uid": "3", "code": 2}, now=1000))
+    return ls
+
+
 def prepare_base(path):
     """objects 1 (Active key, 3 names, groups, app info), 2 (Pre-Active key), 3 (Compromised key)"""
     import impl_engine
     E = impl_engine.ImplEngine()
     try:
-        ok16 = {"k": "ok", "t": "cd" * 16}
-        rich = base_attrs() + [A("Name", "name", "n0", 0, t=1), A("Name", "name", "n1", 1, t=1), A("Name", "name", "n2", 2, t=1),
-                               A("Object Group", "text", "g1", 0), A("Object Group", "text", "g2", 1),
-                               {"name": "Application Specific Information", "index": 0,
-                                "value": {"k": "appinfo", "ns": "ssl", "d": "www"}}]
-        for tm in (rich, base_attrs(), base_attrs()):
-            E.handle(req(14, {"op": "create", "bid": None, "crypto": ok16, "otype": 2, "tmpl": T(tm)}, now=1000))
-        E.handle(req(14, {"op": "activate", "bid": None, "crypto": None, "uid": "1"}, now=1000))
-        E.handle(req(14, {"op": "revoke", "bid": None, "crypto": None, "uid": "3", "code": 2}, now=1000))
+        for ln in base_lines():
+            E.handle(ln)
         before = E.dump()
         E.engine._data_store.dispose()
         shutil.copyfile(E.db, path)
     finally:
         E.close()
     return before
+
+
+def breq(v, bopt, items, now=2000):
+    return {"cmd": "req", "now": now, "id": {"user": "alice", "groups": None},
+            "req": {"version": v, "ts": None, "async": None, "bopt": bopt, "maxsize": None, "items": items}}
+
+
+def batches():
+    """(name, version, batch option (1 = Continue, None = Stop), items) on the prepared store"""
+    n = [0]
+
+    def it(op, **kw):
+        n[0] += 1
+        return dict({"op": op, "bid": "b%d" % n[0], "crypto": None}, **kw)
+    ok16 = {"k": "ok", "t": "ab" * 16}
+    ok16b = {"k": "ok", "t": "ef" * 16}
+    mk = lambda nm, cr: it("create", otype=2, tmpl=T(base_attrs() + [A("Name", "name", nm, 0, t=1)]), crypto=cr)
+    pair = lambda: it("createKeyPair", common=T([A("Cryptographic Algorithm", "enum", 4), A("Cryptographic Length", "int", 1024),
+                                                  A("Cryptographic Usage Mask", "int", 3)]), priv=None, pub=None,
+                      crypto={"k": "ok2", "pub": "aa" * 8, "priv": "bb" * 8, "pubfmt": 3, "privfmt": 4})
+    return [
+        ("continue-mixed", 14, 1, [
+            mk("bn1", ok16),                                             # succeeds, sets the placeholder
+            it("activate", uid=None),                                   # on the placeholder
+            it("destroy", uid="1"),                                     # fails: object 1 is Active
+            it("deleteAttribute", uid="1", name="Name", index=0, current=None, reference=None),
+            it("getAttributes", uid="2", names=[]),                     # read-only
+            it("destroy", uid="3"),                                     # compromised key: succeeds
+            it("modifyAttribute", uid="2", attr=A("Name", "name", "nope", 5, t=1), current=None, new=None),  # fails
+            mk("bn2", ok16b)]),
+        ("stop-at-failure", 14, None, [
+            it("activate", uid="2"),
+            it("revoke", uid="2", code=1),
+            it("destroy", uid="1"),                                     # fails: the batch stops here
+            mk("never", ok16)]),
+        ("pair-then-attributes-20", 20, 1, [
+            pair(),
+            it("setAttribute", uid="2", attr=A("Sensitive", "bool", True)),
+            it("activate", uid="77"),                                   # fails: no such object
+            it("deleteAttribute", uid="1", name=None, index=None, current=None, reference="Name"),
+            it("modifyAttribute", uid="1", attr=None, current=A("Object Group", "text", "g1"),
+               new=A("Object Group", "text", "g9"))]),
+    ]
+
+
+def batch_case(args):
+    name, line, base_db, kill = args
+    wd = tempfile.mkdtemp(prefix="vcrashb")
+    try:
+        db = os.path.join(wd, "db.sqlite")
+        shutil.copyfile(base_db, db)
+        rc, evs, err = run_child(db, line, kill)
+        objs, healthy = reopen_dump(db)
+        return {"name": name, "kill": kill, "rc": rc, "events": [e for e in evs if e.get("ev") != "ack"],
+                "acked": any(e.get("ev") == "ack" for e in evs),
+                "ack_out": [e.get("out") for e in evs if e.get("ev") == "ack"],
+                "commits_done": sum(1 for e in evs if e.get("ev") == "commit-done"),
+                "objs": objs, "healthy": healthy, "stderr": err if rc not in (0, 99) else ""}
+    finally:
+        shutil.rmtree(wd, ignore_errors=True)
+
+
+def batch_part(ctx, pool, base_db, before):
+    """whole requests: kill inside multi-item batches; prefix states from the implementation, durable states and
+    commit events from the Lean model"""
+    from diff_engine import obs_out
+    from gen_engine import dumps
+    bs = batches()
+    # the model: base history, then for every batch its trace and its answer (reset in between)
+    mlines, where = [], {}
+    for name, v, bopt, items in bs:
+        mlines.append(dumps({"cmd": "reset"}))
+        mlines.extend(dumps(l) for l in base_lines())
+        where[name] = len(mlines)
+        mlines.append(dumps(dict(breq(v, bopt, items), cmd="trace")))
+        mlines.append(dumps(breq(v, bopt, items)))
+    mouts = ctx.run_model("Txn", mlines)
+    jobs_full, jobs_prefix = [], []
+    for name, v, bopt, items in bs:
+        jobs_full.append((name, breq(v, bopt, items), base_db, "none"))
+        for j in range(1, len(items)):
+            jobs_prefix.append((name + ":prefix%d" % j, breq(v, bopt, items[:j]), base_db, "none"))
+    full = pool.map(batch_case, jobs_full)
+    pref = pool.map(batch_case, jobs_prefix)
+    kills, divergences, distinct = [], [], set()
+    info = {}
+    for (name, v, bopt, items), fr in zip(bs, full):
+        if fr["rc"] != 0 or not fr["acked"]:
+            raise RuntimeError("complete run of batch %s failed: rc=%s %s" % (name, fr["rc"], fr["stderr"]))
+        mt = json.loads(mouts[where[name]])
+        mr = json.loads(mouts[where[name] + 1])
+        out = fr["ack_out"][0]
+        if obs_out(out) != obs_out(mr):
+            divergences.append({"batch": name, "what": "results", "impl": obs_out(out), "model": obs_out(mr)})
+        # states after each prefix of the items (implementation, complete runs)
+        states = [before] + [p["objs"] for p in pref if p["name"].startswith(name + ":prefix")] + [fr["objs"]]
+        evs = fr["events"]
+        commit_items = [e.get("item") for e in evs if e["ev"] == "commit-done"]
+        model_commits = [e[1] for e in mt.get("events", []) if e[0] == "c"]
+        model_durable = [before] + [d for e, d in zip(mt.get("events", []), mt.get("durable", [])) if e[0] == "c"]
+        if commit_items != model_commits:
+            divergences.append({"batch": name, "what": "items that COMMIT", "impl": commit_items, "model": model_commits})
+        # trace shape: the statements of an item that commits directly precede its one COMMIT; the response is last
+        ok_shape, cur = True, None
+        for e in evs:
+            if e["ev"] == "stmt":
+                cur = e.get("item")
+            elif e["ev"] == "commit-begin":
+                ok_shape = ok_shape and cur == e.get("item")
+            elif e["ev"] == "commit-done":
+                cur = None
+        if not ok_shape or len(set(commit_items)) != len(commit_items):
+            ctx.report("c09:trace-shape:batch:%s" % name, "the statement/commit trace of batch %s is not one transaction "
+                       "per item (statements, then that item's single COMMIT): %s" % (name, [(e["ev"], e.get("item")) for e in evs]),
+                       {"kind": "trace", "batch": name, "request": breq(v, bopt, items), "events": evs})
+        nst = sum(1 for e in evs if e["ev"] == "stmt")
+        ncm = len(commit_items)
+        points = [str(k) for k in range(1, nst + 1)]
+        if ctx.tier == "quick":
+            # first and last statement of every item
+            firsts, lasts, seen = [], {}, set()
+            k = 0
+            for e in evs:
+                if e["ev"] == "stmt":
+                    k += 1
+                    if e.get("item") not in seen:
+                        seen.add(e.get("item"))
+                        firsts.append(str(k))
+                    lasts[e.get("item")] = str(k)
+            points = sorted(set(firsts) | set(lasts.values()), key=int)
+        points += ["cB:%d" % k for k in range(1, ncm + 1)] + ["cA:%d" % k for k in range(1, ncm + 1)] + ["ack"]
+        info[name] = {"states": states, "final": fr["objs"], "model_durable": model_durable, "items": len(items),
+                      "statements": nst, "commits": ncm, "request": breq(v, bopt, items)}
+        for k in points:
+            kills.append((name, breq(v, bopt, items), base_db, k))
+    res = pool.map(batch_case, kills, chunksize=2)
+    for (name, line, _, k), r in zip(kills, res):
+        distinct.add((name, k))
+        I = info[name]
+        rep = {"kind": "crash-batch", "batch": name, "request": line, "kill_at": k}
+        if r["rc"] != 99:
+            ctx.report("c09:child-did-not-die:batch:%s" % name, "child exit code %s at %s: %s" % (r["rc"], k, r["stderr"]), rep)
+            continue
+        if not r["healthy"]:
+            ctx.report("c09:store-unreadable-after-crash:batch:%s" % name,
+                       "after a kill at %s inside batch %s the store cannot be listed/read consistently" % (k, name), rep)
+        if r["objs"] not in I["states"]:
+            ctx.report("c09:partial-state:batch:%s" % name,
+                       "after a kill at %s inside batch %s the store is not the store after any prefix of its items" % (k, name), rep)
+        elif r["acked"] and r["objs"] != I["final"]:
+            ctx.report("c09:acknowledged-lost:batch:%s" % name,
+                       "batch %s was answered before the kill at %s but its effects are not all in the store" % (name, k), rep)
+        elif r["commits_done"] == 0 and r["objs"] != I["states"][0]:
+            ctx.report("c09:visible-before-commit:batch:%s" % name,
+                       "a kill before the first COMMIT (at %s) of batch %s left changes" % (k, name), rep)
+        else:
+            m = r["commits_done"]
+            if m < len(I["model_durable"]) and r["objs"] != I["model_durable"][m]:
+                divergences.append({"batch": name, "what": "durable store after %d COMMITs (kill at %s)" % (m, k),
+                                    "impl": r["objs"], "model": I["model_durable"][m]})
+    if divergences:
+        ctx.report("correspondence:request-transactions", "the request-level transaction model (requestRun) and the engine "
+                   "disagree: %s" % json.dumps(divergences[0])[:600],
+                   {"broken": "correspondence Drivers/Txn.lean (KmipModel/TxnRequest.lean) vs KmipEngine on whole batches",
+                    "cases": divergences[:3]}, no_input=True)
+    return {"batch_kills": len(kills), "batch_prefix_runs": len(jobs_prefix), "batches": {n: {k: I[k] for k in ("items", "statements", "commits")}
+                                                                                         for n, I in info.items()},
+            "batch_model_divergences": len(divergences), "batch_distinct": len(distinct)}
 
 
 def run_child(db, line, kill_at):
@@ -199,6 +380,7 @@ def run(ctx):
                 for k in points:
                     jobs.append((n, v, it, base_db, k))
             res = pool.map(one_case, jobs, chunksize=2)
+            bcov = batch_part(ctx, pool, base_db, before)
         distinct = set()
         for (n, v, it, _, k), r in zip(jobs, res):
             distinct.add((n, k))
@@ -221,11 +403,13 @@ def run(ctx):
             if k not in ("cA", "ack") and not same_before:
                 ctx.report("c09:visible-before-commit:%s" % n, "a kill before COMMIT (at %s) of %s left changes" % (k, n), rep)
         ctx.coverage.update({
-            "evaluations": len(jobs) + len(ops), "distinct_nontrivial": len(distinct), "rule": RULE,
+            "evaluations": len(jobs) + len(ops) + bcov["batch_kills"] + bcov["batch_prefix_runs"],
+            "distinct_nontrivial": len(distinct) + bcov["batch_distinct"], "rule": RULE,
             "samples": [{"op": ops[0][0], "statements": plans[ops[0][0]]["statements"], "kill_points": "1..n, cB, cA, ack"}],
             "operations": [n for n, _, _ in ops], "kills": len(jobs),
             "statements_per_operation": {n: len(p["statements"]) for n, p in plans.items()},
-            "traces_validated_against_impl": len(ops), "exhaustive": ctx.tier != "quick"})
+            "traces_validated_against_impl": len(ops) + len(bcov["batches"]), "exhaustive": ctx.tier != "quick"})
+        ctx.coverage.update(bcov)
     finally:
         shutil.rmtree(wd, ignore_errors=True)
 
